@@ -294,14 +294,18 @@ func (c *fctx) consumerLoop(pull bool) []*S {
 		loop.Name = val
 		d.sc.declare(val, vRO)
 	}
-	loop.Body = d.stmts(1 + r.Intn(3))
-	if loop.Op == ":=" {
-		loop.Body = append([]*S{{K: SUse, Name: loop.Name}}, loop.Body...)
+	redecl := c.g.cfg.Quar["redeclare"] == false && r.Chance(1, 5)
+	if redecl {
+		d.sc.declare(loop.Name, vInt) // the body's own variable of that name
 	}
-	if c.g.cfg.Quar["redeclare"] == false && r.Chance(1, 5) {
+	loop.Body = d.stmts(1 + r.Intn(3))
+	if redecl {
 		// the body re-declares the loop variable at its top level
 		loop.Body = append([]*S{{K: SDecl, Name: loop.Name, E: bin(v(loop.Name), "+", lit(1))}}, loop.Body...)
 		c.g.mark("consumer_body_redeclares_loop_variable")
+	}
+	if loop.Op == ":=" {
+		loop.Body = append([]*S{{K: SUse, Name: loop.Name}}, loop.Body...)
 	}
 	c.g.mark("consumer_range_loop")
 	return []*S{loop}
